@@ -23,6 +23,11 @@ def shards(mode, bin_, n, **kw):
 
 
 PROPS = {
+    "C09": {
+        "runs": [native("c09")],
+        "expect_monitors": ["ciede2000", "delta_e_hyab_euclid", "wcag_contrast"],
+        "assumptions": ASSUME_COMMON + ["CIEDE2000 reference typed from Sharma, Wu, Dalal (2005) and self-tested on their 34 pairs (refdata/sharma_ciede2000.csv)", "improved variants per Huang et al. 2015: 1.26 dE^0.55 (CIELAB), 1.43 dE00^0.7, 1.41 dE'^0.63 (CAM16-UCS)"],
+    },
     "C03": {
         "runs": [{"mode": "native-dev", "bin": "c03"}],
         "expect_monitors": ["clamp_contract", "clamping_and_checked_conversion"],
